@@ -119,6 +119,7 @@ class Recorder:
         self.queue: list[str] = []          # shadow of the broker queue (abstract ids)
         self.enabled = True
         self._last_state: dict[str, Any] | None = None
+        self._last_logged: dict[str, Any] | None = None
         self.inflight: dict[str, list[str]] = {}     # actor -> invocations whose record it is changing
         self._installed: list[tuple[Any, str, Any]] = []
 
@@ -146,6 +147,7 @@ class Recorder:
                 mine = set(args.get("invs", []) or []) | ({args["inv"]} if args.get("inv") else set())
                 ev["state"] = self._mask_inflight(fresh, ev["actor"], mine)
                 self._last_state = ev["state"]
+                self._last_logged = ev["state"]      # survives a forced refresh (_last_state = None): records only
         self.events.append(ev)
         return ev
 
@@ -154,9 +156,9 @@ class Recorder:
         parked between the write and the return) is not part of the logged view yet: the change is
         attributed to the event of the call that made it."""
         others = {inv for actor, invs in self.inflight.items() if actor != me for inv in invs} - mine
-        if not others or self._last_state is None:
+        prev = self._last_state or self._last_logged
+        if not others or prev is None:
             return fresh
-        prev = self._last_state
         for inv in others:
             for k, default in (("st", "none"), ("owner", "none")):
                 if k in fresh and inv in fresh[k]:
